@@ -29,6 +29,7 @@ type output struct {
 	SolverDecided  int64                         `json:"solver_decided_sides"`
 	UnsatPruned    int64                         `json:"unsat_pruned_sides"`
 	UnknownKept    int64                         `json:"unknown_kept_sides"`
+	CacheHits      int64                         `json:"sides_decided_from_cached_unsat"`
 	CrossChecked   int64                         `json:"unsat_cross_checked"`
 	CrossDisagree  int64                         `json:"unsat_cross_disagreements"`
 	PathsRechecked int64                         `json:"paths_final_pc_rechecked_sat"`
@@ -198,7 +199,7 @@ func main() {
 	o := output{
 		Entry: pkgPath + "." + *entry, Solver: spec.Name, Workers: *workers, LoadS: loadS, WallS: res.Wall.Seconds(),
 		Completed: res.Completed, Pruned: res.Pruned, Forks: res.Forks, SolverDecided: res.SolverDecided,
-		UnsatPruned: res.UnsatPruned, UnknownKept: res.UnknownKept, CrossChecked: res.CrossChecked, CrossDisagree: res.CrossDisagree, PathsRechecked: res.PathsRechecked, FreshRetries: res.FreshRetries, FreshDecided: res.FreshDecided, AssertsChecked: res.AssertsChecked,
+		UnsatPruned: res.UnsatPruned, UnknownKept: res.UnknownKept, CacheHits: res.CacheHits, CrossChecked: res.CrossChecked, CrossDisagree: res.CrossDisagree, PathsRechecked: res.PathsRechecked, FreshRetries: res.FreshRetries, FreshDecided: res.FreshDecided, AssertsChecked: res.AssertsChecked,
 		AssertsConc: res.AssertsConc, Queries: res.Queries, SolverS: float64(res.SolverNanos) / 1e9,
 		Steps: res.Steps, MapRangesFixed: res.MapRangesFixed, MapRangesPerm: res.MapRangesPerm,
 		Violations: res.Violations, ViolationCount: res.ViolationCount, Inconclusive: res.Inconclusive,
